@@ -124,6 +124,7 @@ def parse_callee(c):
     # trailing turbofish = fn generic args
     if segs and segs[-1].startswith('<'):          # a trailing <..> group is always a turbofish, even `::<impl Trait>`
         ci.fnargs = split_top(segs[-1][1:-1]); segs = segs[:-1]
+    if not segs: raise Unmodelled('cannot parse callee: ' + repr(c))
     ci.method = segs[-1]
     pre = segs[:-1]
     if pre and pre[-1].startswith('<') and not pre[-1].startswith('<impl '):
@@ -171,6 +172,8 @@ def resolve(vm, callee, subst):
     c = canon(callee)
     if subst: c = vm.subst_text(c, subst)
     c = normalize_assoc(vm, c)
+    if mir.src.aliases:
+        c = _ALIAS_RX(mir).sub(lambda m: mir.src.aliases[m.group(1)], c)
     ci = parse_callee(c); ci.subst = subst
     hooks = vm.hooks
     if ci.trait is not None or (ci.selfty is not None and c.startswith('<') and not c.startswith('<impl ')):  # qualified path
@@ -200,8 +203,8 @@ def resolve(vm, callee, subst):
         for f in mir.by_name.get(ci.method, []):
             if f.name == f'{ci.trait}::{ci.method}' or f.name.endswith(f'::{ci.trait}::{ci.method}'):
                 return ('mir', f, bind_fn_generics(vm, f, {'Self': selfty}, ci.fnargs))
-        if selfty.startswith('dyn ') and ci.trait in mir.src.traits:
-            return ('dyn', ci)
+        if ci.trait in mir.src.traits and (selfty.startswith(('dyn ', 'impl ')) or re.fullmatch(r'[A-Z]\w*', selfty) and selfty not in mir.src.structs and selfty not in mir.src.enums):
+            return ('dyn', ci)      # trait object / `impl Trait` argument / unbound generic: dispatch on the receiver's runtime type
         m = vm.models.lookup_trait(ci)
         if m is not None: return ('model', m[0], ci, m[1])
         raise Unmodelled(f'unmodelled callee: {c}   [shape {ci.shape}]')
@@ -243,6 +246,13 @@ def resolve(vm, callee, subst):
     m = vm.models.lookup_path(ci)
     if m is not None: return ('model', m[0], ci, m[1])
     raise Unmodelled(f'unmodelled callee: {c}   [shape {ci.shape}]')
+
+
+def _ALIAS_RX(mir):
+    rx = getattr(mir, '_alias_rx', None)
+    if rx is None:
+        rx = mir._alias_rx = re.compile(r'(?<![\w:])(' + '|'.join(map(re.escape, sorted(mir.src.aliases, key=len, reverse=True))) + r')(?![\w<])')
+    return rx
 
 
 def _targs_ok(im, targs, out):
